@@ -209,13 +209,14 @@ class World:
         self.helpers = []
         self.service_classes = {}
         self.callables = {}  # pid -> the callable built for it (handed out again by "adopt_same")
+        self.watch_tids = set()  # kernel thread ids whose scheduler statistics the reference loop samples
 
     def gate(self, name):
         return self.gates.setdefault(name, threading.Event())
 
 
 def context_facts():
-    facts = {"main": threading.current_thread() is threading.main_thread()}
+    facts = {"main": threading.current_thread() is threading.main_thread(), "tid": threading.get_native_id()}
     try:
         facts["lib"] = sniffio.current_async_library()
     except sniffio.AsyncLibraryNotFoundError:
@@ -446,6 +447,8 @@ async def run_async(world, pspec, args, kwargs):
     pid, flavour = pspec["id"], pspec["flavour"]
     lib = asyncio if flavour == "asyncio" else trio
     cancel_exc = asyncio.CancelledError if flavour == "asyncio" else trio.Cancelled
+    if pid.startswith("heart"):
+        world.watch_tids.add(threading.get_native_id())
     LOG("start", pid=pid, gen=world.gen, flavour=flavour, args_ok=args_ok(world, pid, args, kwargs),
         nargs=len(args), kwkeys=sorted(kwargs), inside_section=world.overlap.get(flavour, 0), **context_facts())
     cleanup = pspec.get("cleanup", {"kind": "none"})
@@ -562,7 +565,7 @@ async def run_async(world, pspec, args, kwargs):
                 began, step = time.monotonic(), 0
                 try:
                     for step in range(cleanup["steps"]):
-                        await asyncio.sleep(0)
+                        await asyncio.sleep(cleanup.get("pause", 0))
                 except cancel_exc:
                     LOG("cleanup-interrupted", pid=pid, gen=world.gen, after=round(time.monotonic() - began, 4), step=step)
                     raise
@@ -638,6 +641,15 @@ def run_sync(world, pspec, args, kwargs):
     return None
 
 
+def run_delay(tid):
+    """Seconds the thread has spent runnable but waiting for a CPU (scheduler statistics), or None."""
+    try:
+        with open("/proc/self/task/%d/schedstat" % tid) as f:
+            return int(f.read().split()[1]) / 1e9
+    except (OSError, IndexError, ValueError):
+        return None
+
+
 def make_payload(world, pspec):
     if pspec.get("call_raises"):
         def payload(*args, **kwargs):
@@ -668,13 +680,17 @@ def dress(inner, how, prefix=None):
     """The same payload as another kind of callable: what matters is what calling it gives."""
     if how == "function":
         return inner
-    if how == "prefixed":
+    if how in ("prefixed", "marked"):
         def prefixed(*args, **kwargs):
             # a plain function: a synchronous first section, then it hands out the coroutine (or result) of the inner one
             prefix()
             return inner(*args, **kwargs)
 
         prefixed.__name__ = prefixed.__qualname__ = inner.__name__
+        if how == "marked" and asyncio.iscoroutinefunction(inner):
+            import inspect
+
+            inspect.markcoroutinefunction(prefixed)  # a decorator-style wrapper that declares itself a coroutine function
         return prefixed
     if how == "lambda":
         return lambda *args, **kwargs: inner(*args, **kwargs)
@@ -712,7 +728,7 @@ def dress(inner, how, prefix=None):
     raise AssertionError("unknown kind of callable %r" % (how,))
 
 
-CALLABLE_KINDS = ["function", "lambda", "wrapped", "partial", "object", "method", "prefixed"]
+CALLABLE_KINDS = ["function", "lambda", "wrapped", "partial", "object", "method", "prefixed", "marked"]
 
 
 # ------------------------------------------------------------------------------ driver thread
@@ -856,13 +872,26 @@ def run_generation(gen_spec, index):
         for fn, pid in early:
             fn(world, pid, by="main-before-accept")
     if gen_spec.get("ticker"):
-        # a plain harness thread ticking every 10 ms: tells a starved machine from a stalled event loop
+        # a reference event loop of the harness' own (nothing of cobald in it) beating every 10 ms: it costs per beat what
+        # a runner's loop costs (timer wake-up, interpreter hand-over, one log entry), so it tells a starved machine or a
+        # contended interpreter from a loop that is held up by a payload
         def tick():
-            n = 0
-            while not world.accept_done.is_set() and n < 3000:
-                LOG("tick", gen=index, n=n)
-                n += 1
-                time.sleep(0.01)
+            async def beat():
+                n = 0
+                while not world.accept_done.is_set() and n < 3000:
+                    if n % 5 == 0 and world.watch_tids:
+                        # how long the watched threads (the runners' loop threads) have been runnable without a CPU so far
+                        LOG("tick", gen=index, n=n, waited={str(t): run_delay(t) for t in list(world.watch_tids)})
+                    else:
+                        LOG("tick", gen=index, n=n)
+                    n += 1
+                    await asyncio.sleep(0.01)
+
+            loop = asyncio.new_event_loop()
+            try:
+                loop.run_until_complete(beat())
+            finally:
+                loop.close()
 
         threading.Thread(target=tick, name="ticker", daemon=True).start()
     thread = threading.Thread(target=driver, args=(world,), name="driver", daemon=True)
